@@ -27,13 +27,13 @@ def run(ctx, R):
     declare(R, {**topology.RULES, **delivery.RULES}, RULES, FLOORS)
     M = ctx.model
     nodes = [c for c in M.nodes if c.module.name in ('streamz.core', 'streamz.sinks', 'streamz.sources', 'streamz.dask')]
-    topology.check_both_ends(ctx, R, nodes)
-    topology.check_per_upstream(ctx, R, [c for c in nodes if c.module.name == 'streamz.core'])
-    topology.check_belief_consistent(ctx, R, [c for c in nodes if c.module.name == 'streamz.core'])
-    topology.check_weak_and_sinks(ctx, R)
-    topology.check_edit_reach(ctx, R)
-    topology.check_destroy_super(ctx, R, nodes)
-    delivery.check_fanout(ctx, R)
+    R.run(topology.check_both_ends, ctx, R, nodes)
+    R.run(topology.check_per_upstream, ctx, R, [c for c in nodes if c.module.name == 'streamz.core'])
+    R.run(topology.check_belief_consistent, ctx, R, [c for c in nodes if c.module.name == 'streamz.core'])
+    R.run(topology.check_weak_and_sinks, ctx, R)
+    R.run(topology.check_edit_reach, ctx, R)
+    R.run(topology.check_destroy_super, ctx, R, nodes)
+    R.run(delivery.check_fanout, ctx, R)
 
 
 META['level'] += ' connect()/disconnect() reach neither destroy() nor the removal from _global_sinks (call-graph closure), and per-upstream fields are resized unconditionally.'
